@@ -1,4 +1,151 @@
-(* placeholder while the model is being validated; replaced below *)
-From Bardic Require Import ParseBase ParseBlocks.
-Theorem c11b_placeholder : True. Proof. exact I. Qed.
-Print Assumptions c11b_placeholder.
+(* C11 (part B) - the block extractors of bardic/compiler/parsing/blocks.py are total and advance.
+   Property theorems only; proofs are in Proofs/ParseBlocksProofs.v.  The coordinator merges this
+   file into Props/C11.v.
+
+   Model: Compiler/ParseBlocks.v.  `extract_*_v fixed cap lf` is the extractor of
+     fixed = false, cap = None     : /repo as of 45ce265
+     fixed = true,  cap = None     : /repo + proposed_fixes/F11a-legacy-if-unclosed.diff
+     fixed = true,  cap = Some 100 : /repo + F11a + proposed_fixes/F11b-block-depth-limit.diff
+   for ARBITRARY line-level functions `lf : linefns` (part A's ParseLine.v is one instance).
+   Token kinds: the extractors return `token` (Story/Compiled.v), so "only documented kinds" holds by
+   typing.  Outside the model: the interpreter's recursion limit (without F11b the nesting depth of
+   the input controls the Python stack), non-ASCII text, "\n" inside a line. *)
+From Coq Require Import String List Bool Arith.
+From Bardic Require Import PyStr Value Compiled Lex ParseBase ParseBlocks ParseBlocksProofs.
+Import ListNotations.
+Local Open Scope string_scope.
+
+(* What part A's main loop assumes, and the progress argument of its `while`: every extractor that
+   returns reports a consumed count inside the list.  No hypothesis on the line-level functions, on
+   the version, or on where the call is made.  (An unclosed legacy `<<py` block reports one line more
+   than there are; extract_join_choice_block may report 0: the main loop adds 1 itself.) *)
+Theorem extractor_contract : forall fixed cap lf lines start,
+  (forall c n, extract_python_block lines start = POk (c, n) ->
+               1 <= n /\ n <= S (length lines - start)) /\
+  (forall c n, extract_py_new_syntax lines start = POk (c, n) ->
+               1 <= n /\ n <= length lines - start) /\
+  (forall t n, extract_conditional_block_v fixed cap lf lines start = POk (t, n) ->
+               1 <= n /\ n <= length lines - start) /\
+  (forall t n, extract_loop_block_v fixed cap lf lines start = POk (t, n) ->
+               1 <= n /\ n <= length lines - start) /\
+  (forall indent ct ex n, extract_join_choice_block lf lines start indent = POk (ct, ex, n) ->
+               n <= length lines - start).
+Proof. exact contract_all. Qed.
+Print Assumptions extractor_contract.
+
+(* the construct returned is of the announced kind *)
+Theorem extractor_result_kind : forall fixed cap lf lines start t n,
+  (extract_conditional_block_v fixed cap lf lines start = POk (t, n) -> exists brs, t = TCond brs) /\
+  (extract_loop_block_v fixed cap lf lines start = POk (t, n) -> exists v c ct chs, t = TLoop v c ct chs).
+Proof. exact shape_all. Qed.
+Print Assumptions extractor_result_kind.
+
+(* The fuel the model uses, len(lines) - start + 1, is never exhausted: in every version, for all
+   line lists, provided the line-level functions themselves terminate (never OutOfFuel) and
+   extract_multiline_expression consumes the line it is called on (otherwise the Python `while`
+   would not advance).  extract_loop_block is called on a `for` header, as the parser does. *)
+Theorem extractors_never_out_of_fuel : forall fixed cap lf lines start,
+  lf_no_fuel lf -> lf_progress lf ->
+  extract_python_block lines start <> POutOfFuel /\
+  extract_conditional_block_v fixed cap lf lines start <> POutOfFuel /\
+  (header_at is_for_line lines start -> extract_loop_block_v fixed cap lf lines start <> POutOfFuel) /\
+  (forall indent, extract_join_choice_block lf lines start indent <> POutOfFuel).
+Proof. exact never_out_of_fuel_all. Qed.
+Print Assumptions extractors_never_out_of_fuel.
+
+(* Totality with F11a applied: a value or a SyntaxError/ValueError diagnostic, never an internal
+   error, whenever the line-level functions are total in that sense. *)
+Theorem extractors_total : forall cap lf lines start,
+  lf_total lf -> lf_progress lf ->
+  (start < length lines -> ok_or_diag (extract_python_block lines start)) /\
+  ok_or_diag (extract_conditional_block_v true cap lf lines start) /\
+  (header_at is_for_line lines start -> ok_or_diag (extract_loop_block_v true cap lf lines start)) /\
+  (forall indent, ok_or_diag (extract_join_choice_block lf lines start indent)).
+Proof. exact total_all. Qed.
+Print Assumptions extractors_total.
+
+(* the only internal error of extract_python_block is lines[start_index] out of range *)
+Theorem python_block_internal_only_out_of_range : forall lines start e,
+  extract_python_block lines start = PInternal e -> length lines <= start /\ e = IIndex.
+Proof. exact extract_python_block_internal_iff. Qed.
+Print Assumptions python_block_internal_only_out_of_range.
+
+(* The unpatched code is NOT total: `<<if x` without `>>` escapes with UnboundLocalError (F11a),
+   at top level and nested in a loop. *)
+Theorem extract_conditional_block_cur_refuted : exists lf lines start,
+  lf_total lf /\ lf_progress lf /\ header_at is_if_line lines start /\
+  extract_conditional_block_cur lf lines start = PInternal IUnboundLocal.
+Proof.
+  exists lf_sample, ["<<if x"; "hello"; "<<endif>>"], 0.
+  split; [exact lf_sample_total|]. split; [exact lf_sample_progress|].
+  split; [exists "<<if x"; split; reflexivity|]. vm_compute. reflexivity.
+Qed.
+Print Assumptions extract_conditional_block_cur_refuted.
+
+Theorem extract_loop_block_cur_refuted : exists lf lines start,
+  lf_total lf /\ lf_progress lf /\ header_at is_for_line lines start /\
+  extract_loop_block_cur lf lines start = PInternal IUnboundLocal.
+Proof.
+  exists lf_sample, ["@for i in xs:"; "  <<if i // 2>>"; "  t"; "  <<endif>>"; "@endfor"], 0.
+  split; [exact lf_sample_total|]. split; [exact lf_sample_progress|].
+  split; [exists "@for i in xs:"; split; reflexivity|]. vm_compute. reflexivity.
+Qed.
+Print Assumptions extract_loop_block_cur_refuted.
+
+(* ... and `<<elif b` without `>>` silently reuses the previous header's condition. *)
+Theorem legacy_elif_reuses_stale_condition_cur :
+  extract_conditional_block_cur lf_sample ["<<if a>>"; "A"; "<<elif b"; "B"; "<<endif>>"] 0
+  = POk (TCond [Branch "a" [TText "A"; tnl] []; Branch "a" [TText "B"; tnl] []], 5).
+Proof. vm_compute. reflexivity. Qed.
+Print Assumptions legacy_elif_reuses_stale_condition_cur.
+
+(* With the nesting cap of F11b the recursion is bounded by the cap whatever the input: 101 nested
+   extractor calls on one path are enough for every line list (fuel counts exactly those calls). *)
+Theorem capped_recursion_depth_bounded : forall fixed lf n lines start,
+  lf_no_fuel lf -> lf_progress lf -> max_block_depth < n ->
+  extract_conditional_block_f fixed (Some max_block_depth) lf n 0 lines start <> POutOfFuel /\
+  (header_at is_for_line lines start ->
+   extract_loop_block_f fixed (Some max_block_depth) lf n 0 lines start <> POutOfFuel).
+Proof. exact capped_depth_all. Qed.
+Print Assumptions capped_recursion_depth_bounded.
+
+(* structure (used by C12/C01): a conditional extracted at an if-header has at least one branch *)
+Theorem conditional_has_branch : forall fixed cap lf lines start brs n,
+  header_at is_if_line lines start ->
+  extract_conditional_block_v fixed cap lf lines start = POk (TCond brs, n) -> brs <> [].
+Proof. exact has_branch_all. Qed.
+Print Assumptions conditional_has_branch.
+
+(* `@else:` / `<<else>>` start a branch whose condition is the text "True" *)
+Theorem else_branch_condition_is_True : forall lf st cv st' k,
+  start_new_branch lf st "True" cv = POk (CNext st' k) ->
+  exists brs, cs_cur st' = Some ("True", [], []) /\ cs_lines st' = [] /\ cs_branches st' = brs /\ k = 1.
+Proof. exact else_branch_condition_True. Qed.
+Print Assumptions else_branch_condition_is_True.
+
+(* ---------------- non-vacuity ---------------- *)
+(* the hypotheses on the line-level functions are satisfiable *)
+Example linefns_hypotheses_satisfiable : lf_total lf_sample /\ lf_no_fuel lf_sample /\ lf_progress lf_sample.
+Proof.
+  split; [exact lf_sample_total|]. split; [apply lf_total_no_fuel; exact lf_sample_total|exact lf_sample_progress].
+Qed.
+
+(* a nested, mixed legacy/@ block: value, 3 branches, `@else` -> "True", consumed = 11 of 12 lines *)
+Example sample_conditional :
+  extract_conditional_block lf_sample
+    ["@if a:"; "  one"; "  <<for x in xs>>"; "    item<>"; "  <<endfor>>"; "@elif b[0:1]: // c";
+     "  -> Next(1)"; "@else:"; "  ~ n = 1"; "  @hook turn_end Tick"; "@endif"; "after"] 0
+  = POk (TCond [Branch "a" [TText "one"; tnl; TLoop "x" "xs" [TText "item"] []] [];
+                Branch "b[0:1]" [TJump "Next(1)" ""] [];
+                Branch "True" [TPyStmt "n = 1"; THook true "turn_end" "Tick"] []], 11).
+Proof. vm_compute. reflexivity. Qed.
+
+(* the same header without `>>`, after F11a: a located diagnostic *)
+Example sample_fixed_header :
+  extract_conditional_block lf_sample ["<<if x"; "hello"; "<<endif>>"] 0
+  = PDiag (DSyntax "if-missing-close" 0).
+Proof. vm_compute. reflexivity. Qed.
+
+(* an unclosed legacy <<py block reports len - start + 1 lines: the upper bound of the contract is met *)
+Example sample_py_unclosed : extract_python_block ["<<py"; "  a = 1"] 0 = POk ("a = 1", 3).
+Proof. vm_compute. reflexivity. Qed.
